@@ -17,6 +17,7 @@ type normOpts struct {
 	VarExp  bool   `json:"varexp"`
 	NumKeys bool   `json:"numkeys"`
 	Pol     int    `json:"pol"`
+	MaxIdx  int64  `json:"maxidx,omitempty"` // 0: the default
 }
 
 func (o normOpts) opts() []ucfg.Option {
@@ -33,12 +34,19 @@ func (o normOpts) opts() []ucfg.Option {
 	if p := policyOpts[o.Pol]; p.opt != nil {
 		out = append(out, p.opt)
 	}
+	if o.MaxIdx != 0 {
+		out = append(out, ucfg.MaxIdx(o.MaxIdx))
+	}
 	return out
 }
 
 func (o normOpts) coq() string {
-	return fmt.Sprintf("{| n_p := {| p_sep := %s; p_maxIdx := 1024; p_numKeys := %s; p_escape := false |}; n_varexp := %s; n_m := {| m_h := %d%%N; m_ft := None |} |}",
-		coqStr(o.Sep), coqBool(o.NumKeys), coqBool(o.VarExp), policyOpts[o.Pol].h)
+	mx := int64(1024)
+	if o.MaxIdx != 0 {
+		mx = o.MaxIdx
+	}
+	return fmt.Sprintf("{| n_p := {| p_sep := %s; p_maxIdx := %d; p_numKeys := %s; p_escape := false |}; n_varexp := %s; n_m := {| m_h := %d%%N; m_ft := None |} |}",
+		coqStr(o.Sep), mx, coqBool(o.NumKeys), coqBool(o.VarExp), policyOpts[o.Pol].h)
 }
 
 // normObs runs normalize (through the hook) and renders the outcome as an [obs].
@@ -383,6 +391,42 @@ func genC05(g *Gen, c09 bool) {
 				Tags: []string{"same:policy"}, Nontrivial: true})
 		}
 	}
+	// one existing Config at two places of an input that extends one of them by another spelling,
+	// and the same input given a second time: the Config is a value, nothing is written into it
+	for i := 0; i < n/8+2; i++ {
+		x := randMap(r, tc, 1)
+		x["k0"] = randScalar(r)
+		if r.Bool() {
+			x["n"] = map[string]interface{}{"p": randScalar(r)}
+		}
+		if r.P(1, 3) {
+			x["l"] = []interface{}{randScalar(r), map[string]interface{}{"q": randScalar(r)}}
+		}
+		cfg, err := ucfg.NewFrom(x, ucfg.PathSep("."))
+		if err != nil {
+			continue
+		}
+		ext := "b.zz"
+		switch {
+		case x["n"] != nil && r.Bool():
+			ext = "b.n.zz"
+		case x["l"] != nil && r.Bool():
+			ext = []string{"b.l.2", "b.l.1.zz", "b.l.4"}[r.Intn(3)]
+		}
+		var in interface{} = map[string]interface{}{"a": cfg, "b": cfg, ext: randScalar(r)}
+		if r.P(1, 3) {
+			in = map[string]interface{}{"a": []interface{}{cfg}, "b": cfg, ext: randScalar(r), "c": map[string]interface{}{"d": cfg}}
+		}
+		o := normOpts{Sep: "."}
+		g0 := coqGval(in, "")
+		desc := fmt.Sprintf("cfg=%s at a and b, extended by %s", descTree(x), ext)
+		for k := 0; k < 2; k++ {
+			obs, d := normObs(in, o)
+			g.Add(Case{Coq: fmt.Sprintf("CNorm %s %s %s", o.coq(), g0, obs),
+				Desc: map[string]interface{}{"kind": "norm", "opts": o, "input": desc, "call": k + 1, "observed": d},
+				Tags: []string{"norm", "shared-config", fmt.Sprintf("call:%d", k+1)}, Nontrivial: true})
+		}
+	}
 	for i := 0; i < n/4; i++ {
 		o := normOpts{Sep: "."}
 		m := overlapRandom(r, tc)
@@ -417,6 +461,10 @@ func genC05(g *Gen, c09 bool) {
 					}
 				}
 				root[secs[j]] = sec
+				if r.P(1, 3) {
+					// the section is a list as well (named settings and entries in one namespace)
+					root[secs[j]+".0"] = "first"
+				}
 			}
 			if r.P(1, 3) {
 				root["a"] = fmt.Sprintf("${b:%d}", 1)
@@ -496,6 +544,31 @@ func genC05(g *Gen, c09 bool) {
 				for _, kk := range []string{"primary", "second", "backup", "aa", "zz"} {
 					if r.P(2, 3) {
 						tb[kk] = map[string]interface{}{fmt.Sprintf("n%d", r.Intn(3)): randScalar(r), "l": []interface{}{"y"}}
+					}
+				}
+						if r.Bool() {
+					// the same one level down: the top level of the target holds plain namespaces
+					// only, the references between them sit inside
+					ta = map[string]interface{}{
+						"p": map[string]interface{}{"b": map[string]interface{}{"x": 1}, "c": "${r.a}"},
+						"q": map[string]interface{}{"a": "${p.b}"},
+						"r": map[string]interface{}{"a": "${p.b}", "z": "${q.a}"},
+						"s": map[string]interface{}{"t": map[string]interface{}{"u": "${q.a}"}}}
+					tb = map[string]interface{}{}
+					ext := func() interface{} {
+						return map[string]interface{}{fmt.Sprintf("n%d", r.Intn(3)): randScalar(r)}
+					}
+					if r.P(3, 4) {
+						tb["p"] = map[string]interface{}{"b": ext()}
+					}
+					if r.P(3, 4) {
+						tb["q"] = map[string]interface{}{"a": ext()}
+					}
+					if r.P(1, 2) {
+						tb["r"] = map[string]interface{}{"a": ext(), "z": ext()}
+					}
+					if r.P(1, 2) {
+						tb["s"] = map[string]interface{}{"t": map[string]interface{}{"u": ext()}}
 					}
 				}
 			}
